@@ -23,7 +23,7 @@ theorem contract_S_eq {t t' : TTN} {id1 id2 new : Id} (h : t.WF)
       t'.S = contractS t.S pid cid new gp
         (if id1 = pid then Pch.erase cid ++ Cch else Cch ++ Pch.erase cid) ∧
       t'.root = (if gp = none then some new else t.root) := by
-  obtain ⟨pid, cid, P, C, nn, newT, hP, hC, hCp, hids, hnew', n1, n2, n3, n4, n5, n6, a1, a2, a3, a4, a5, a6⟩ :=
+  obtain ⟨pid, cid, P, C, nn, newT, hP, hC, hCp, hids, hnew', n1, n2, n3, n4, n5, n6, a1, a2, a3, a4, a5, a6, _⟩ :=
     contract_final h hnew hc
   refine ⟨pid, cid, P.parent, P.children, C.children, TTN.S_eq hP, by rw [TTN.S_eq hC, hCp], hids, ?_, a6⟩
   funext k
@@ -59,7 +59,7 @@ theorem split_S_eq {t t' : TTN} {id : Id} {X : NodeS} {outL inL : TTN.LegSpec} {
       t'.S = splitS t.S id a b X.parent aCh bCh ∧
       t'.root = (if X.parent = none then some a else t.root) := by
   obtain ⟨a, b, aCh, bCh, na, nb, Ta, Tb, hcfg, hab, hNa, hNb, p1, p2, p3, p4, w1, w2, s1, s2, hid, hby, hT, hR,
-    hside⟩ := split_final h adm hs
+    hside, _⟩ := split_final h adm hs
   have hoi : outId ≠ inId := by
     rcases hcfg with ⟨e1, e2, _⟩ | ⟨e1, e2, _⟩
     · rw [← e1, ← e2]; exact hab
